@@ -51,6 +51,9 @@ def full(kind, params, tol, acc, pts, stratum):
     flat = [c for q in pts for c in q]
     line = f'shape.full {shape_line(kind, params)} {H(tol, acc)} {len(pts)} {H(*flat)}'
     sc = max([1e-3] + [abs(x) for x in params[2:]]) if kind in ('circle', 'ellipse', 'cseg') else max(1e-3, max(params[:4]) - min(params[:4]), *(abs(params[k] - params[k - 2]) for k in range(2, min(len(params), 6))))
+    if stratum.endswith('-scaled'):
+        # tiny copies (2^-36): the slack must scale with the shape, not stop at 1e-3 (every query point would count as "on the boundary")
+        sc = max(max(params[:4]) - min(params[:4]), *(abs(params[k] - params[k - 2]) for k in range(2, min(len(params), 6))))
 
     def judge(o):
         i = o['I'][0]
